@@ -39,7 +39,7 @@ func Run(r *rt.Run) error {
 	nRandom := 300
 	if r.Thorough() {
 		maxLen = 4
-		nRandom = 4000
+		nRandom = 3000
 	}
 	alpha := []step{}
 	for _, id := range ids {
@@ -75,13 +75,16 @@ func Run(r *rt.Run) error {
 			rec(li, append(hist, s))
 		}
 	}
+	fullLen := maxLen
 	for li := range layouts {
-		if li > 0 && !r.Thorough() {
-			// quick: full depth on the plain layout, depth-1 less on the publish layouts
-			maxLen = 2
+		// full depth on the plain layout, one less on the publish/match layouts
+		maxLen = fullLen
+		if li > 0 {
+			maxLen = fullLen - 1
 		}
 		rec(li, nil)
 	}
+	maxLen = fullLen
 	// random: registration churn interleaved with collects on both topics
 	matches := []string{"none", "changed", "warn", "critchanged", "never"}
 	randCfg := func() Cfg {
